@@ -24,7 +24,7 @@ from __future__ import annotations
 import ast
 
 from ..model import AnchorError, norm, walk_no_nested
-from ..util import cfg_of, call_attr, assigned_attrs, node_calls, local_single_defs
+from ..util import cfg_of, call_attr, assigned_attrs, node_calls, local_single_defs, follow_delegate
 from ..cfg import facts_at
 
 EXPLANATION = __doc__
@@ -224,7 +224,7 @@ def run(ctx) -> None:
     else:
         ctx.fail("R01d", vl, vl.node, "_validate_liveedit_method rejects a changed started/executed line",
                  "no raise MethodEditError under `line started or executed, content differs`")
-    es = prog.func("openpectus.engine.engine:Engine.set_method")
+    es = follow_delegate(prog.func("openpectus.engine.engine:Engine.set_method"))   # (lock wrapper -> implementation)
     ctx.analysed(es)
     ge = cfg_of(es)
     mnodes = [n for n in ge.nodes if node_calls(n, "merge_method")]
